@@ -110,6 +110,12 @@ def gen_defset(rng, n_entities=None, fault=None, simple_types=False, want_nested
     rng.shuffle(names)
     for nm in names:
         ds['entities'].append(gen_section(nm, [s['name'] for s in ds['interfaces']]))
+    if rng.random() < 0.12:
+        # a wide entity: more than 128 client-visible properties (one-byte indexes of creation packets above 127, wide index fields)
+        sec = rng.choice(ds['entities'])
+        for j in range(rng.randint(130, 200)):
+            sec['props'].append({'name': 'w%d' % j, 'type': ('tree', {'k': 'int', 'size': rng.choice([1, 1, 2]), 'signed': rng.random() < 0.3}),
+                                 'flags': rng.choice(['ALL_CLIENTS', 'OWN_CLIENT', 'OTHER_CLIENTS']), 'default': None})
     if want_nested:
         for sec in ds['entities']:
             for j in range(rng.randint(1, 3)):
